@@ -35,7 +35,7 @@ TOL = 1e-9
 
 def base_cfg(path, omp, nac, qs, wdm):
     return dict(path=path, kind="na", omp=omp, nac=nac, dec=False, wev=True, wgv=False, wdm=wdm, conn=False, dir=False,
-                shape="na", meshlen=False, gc=(path == "mesh"), qs=qs, fac="vasp")
+                shape="na", meshlen=False, gc=(path == "mesh"), qs=qs, fac="vasp", lay="carray")
 
 
 def perq_reference(ph, qs):
